@@ -539,10 +539,20 @@ inline int driver_main(int argc, char **argv) {
                 start[w] = shm[w].cur_idx + 1;
                 shm[w].in_case = 0;
                 restarts++;
-                if (restarts > 20000) {
-                    harness_error = true;
-                    live--;
-                    continue;
+                if (restarts > 3000) {
+                    // thousands of cases die: the property is plainly violated; stop here with what was recorded
+                    // (reported as not exhaustive) instead of grinding through the rest one process per case
+                    timed_out = true;
+                    for (int k = 0; k < workers; k++)
+                        if (ch[k].fd >= 0) {
+                            kill(ch[k].pid, SIGKILL);
+                            close(ch[k].fd);
+                            ch[k].fd = -1;
+                            int st2 = 0;
+                            waitpid(ch[k].pid, &st2, 0);
+                        }
+                    live = 0;
+                    break;
                 }
                 spawn(w);
             } else {
